@@ -40,7 +40,7 @@ def work(ctx, tier):
         ctx.inc("sweep_scenarios")
     n = (9000 if tier == "quick" else 250000) // ctx.nshards
     for k in range(n):
-        sc = gen.rand_scenario(rng, p_special=0.04, specials=("abort", "nested_open"), p_budget=0.3, p_handler=0.4, p_abort=0.3, p_breaker=0.4, ncalls=(1, 4), placements=(k % 5 == 0))
+        sc = gen.rand_scenario(rng, p_special=0.04, specials=("abort", "nested_open"), p_budget=0.3, p_handler=0.4, p_abort=0.3, p_breaker=0.4, ncalls=(1, 4), placements=(k % 5 == 0), p_strategy_objects=0.3, slow_hooks=(k % 3 == 1), rf_time=True)
         if k % 6 == 0:
             # a raising metric hook must not make the three sinks disagree
             sc["fault"] = {"kind": "hook", "hook": "metric", "at": rng.choice([0, 1, 2, "always"]), "exc": rng.choice(["RuntimeError", "ValueError", "KeyError"])}
@@ -48,6 +48,11 @@ def work(ctx, tier):
         for e in common.pick_entries(rng, rig.ENTRIES, 3):
             _one(ctx, sc, e, stats, sample=(k < 2 and ctx.shard == 0))
         ctx.inc("random_scenarios")
+    # the clock crossing the deadline inside one callback of the backoff phase (after the handler has already decided)
+    for sc in gen.crossing_scenarios(rng, (1200 if tier == "quick" else 30000) // ctx.nshards):
+        for e in common.pick_entries(rng, rig.ENTRIES, 2):
+            _one(ctx, sc, e, stats)
+        ctx.cnt["crossing_scenarios:" + sc["crossing"]] += 1
     # breaker histories at policy level: many calls on one policy with small thresholds
     m = (1500 if tier == "quick" else 40000) // ctx.nshards
     for k in range(m):
@@ -99,6 +104,8 @@ def conclude(ctx):
     floors["retry_events"] = (ctx.cnt["retry_events"], 3000)
     floors["scenarios_with_raising_metric_hook"] = (ctx.cnt["scenarios_with_raising_metric_hook"], 100)
     floors.update(tconc.floors(ctx))
+    for w_ in ("handler", "before_sleep", "record_failure"):
+        floors["crossing_scenarios:" + w_] = (ctx.cnt["crossing_scenarios:" + w_], 100)
     return dict(
         rule=(
             "sweep + random scenarios (all stop reasons, causes, abort points, handler decisions, timelines as bool/object) over 20 entry points + policy-level breaker histories "
